@@ -12,6 +12,7 @@ package metric
 // cut never slices out of range.
 
 //@ func (*heldMetricsStore[T]).truncateLabels
+//@   option check-nil yes
 //@   requires h.metricMaxLabelValueLength >= 0
 //@   modifies lvs
 //@   ensures forall k :: 0 <= k && k < len(lvs) ==> up_validutf8(lvs[k])
